@@ -83,6 +83,8 @@ impl StateMachine<'_> {
             self.painter.paint_buffered_minus_and_plus_lines();
             self.state = MergeConflict(merge_parents.clone(), Ours);
             self.painter.merge_conflict_commit_names[Ours] = Some(commit.to_string());
+            // A new region has no ancestral section until its `|||||||` marker is seen.
+            self.painter.merge_conflict_commit_names[Ancestral] = None;
             true
         } else {
             false
